@@ -2,17 +2,17 @@
    This file contains only the property theorems. *)
 From Verif Require Import Utils.Txn Utils.TxnProofs.
 
-Theorem C17_txn : forall cnd thn rb cp, cnd <> Absent -> txn_spec cnd thn rb cp.
+Theorem C17_txn : forall cnd thn rb cp ca, cnd <> Absent -> txn_spec cnd thn rb cp ca.
 Proof. exact txn_spec_holds. Qed.
 Print Assumptions C17_txn.
 
-Theorem C17_pcr : forall prep com rb cp,
-  prep <> Absent -> com <> Absent -> rb <> Absent -> pcr_spec prep com rb cp.
+Theorem C17_pcr : forall prep com rb cp ca,
+  prep <> Absent -> com <> Absent -> rb <> Absent -> pcr_spec prep com rb cp ca.
 Proof. exact pcr_spec_holds. Qed.
 Print Assumptions C17_pcr.
 
 (* the boolean check the harness evaluates on implementation output accepts the model *)
-Theorem C17_ok_sound_on_model : forall cnd thn rb cp, cnd <> Absent ->
-  txn_ok cnd thn rb (fst (txn cnd thn rb cp)) (snd (txn cnd thn rb cp)) = true.
+Theorem C17_ok_sound_on_model : forall cnd thn rb cp ca, cnd <> Absent ->
+  txn_ok cnd thn rb ca (fst (txn cnd thn rb cp ca)) (snd (txn cnd thn rb cp ca)) = true.
 Proof. exact txn_ok_model. Qed.
 Print Assumptions C17_ok_sound_on_model.
